@@ -255,6 +255,24 @@ TARGETS = [
                   exprs={"self.manifest_pack.check()": "manifestOk", "self.directory_pack.check()": "directoryOk",
                          "self.locator.locate(pack_info.uuid, &pack_info.pack_location)": "pack_info",
                          "open_as_container_pack(r)": "r", "pseudo_container_pack.check()": "pseudo_container_pack"})),
+    # ---- column statistics of the schema (creator/directory_pack/schema/property.rs)
+    dict(name="valueCounterProcess", group="Stats", file="src/creator/directory_pack/schema/property.rs", fn="process", after=r"impl<T> ValueCounter<T>",
+         enums=[dict(rust="ValueCounter", file="src/creator/directory_pack/schema/property.rs", lean="SrcCounter", types={"T": "Int"})],
+         cfg=dict(params=[("c", "SrcCounter"), ("v", "Int")], ret="SrcCounter", prelude="let self_ := c", paths={"self": "self_", "Self::Many": "SrcCounter.many"},
+                  result="self_", mutself=dict(var="self_", arm_results={}),
+                  patterns={"Self::None": "SrcCounter.none", "Self::One": "SrcCounter.one", "Self::Many": "SrcCounter.many"},
+                  funcs={"Self::One": "(SrcCounter.one {0})"}, )),
+    dict(name="valueCounterDefault", group="Stats", file="src/creator/directory_pack/schema/property.rs", fn="from", after=r"From<ValueCounter<T>> for Option<T>",
+         cfg=dict(params=[("v", "SrcCounter")], ret="Option Int", patterns={"ValueCounter::One": "SrcCounter.one"})),
+    dict(name="propertySizeProcess", group="Stats", file="src/creator/directory_pack/schema/property.rs", fn="process", after=r"impl<T> PropertySize<T>",
+         enums=[dict(rust="PropertySize", file="src/creator/directory_pack/schema/property.rs", lean="SrcSize", types={"T": "Int", "ByteSize": "Nat"})],
+         cfg=dict(params=[("s", "SrcSize"), ("v", "Int")], ret="SrcSize", prelude="let self_ := s", paths={"self": "self_"},
+                  result="self_", ignore_macros=["assert"], int=True,
+                  mutself=dict(var="self_", arm_results={"Self::Auto": "(SrcSize.auto {0})", "Self::Fixed": "(SrcSize.fixed {0})"}),
+                  patterns={"Self::Fixed": "SrcSize.fixed", "Self::Auto": "SrcSize.auto"})),
+    dict(name="propertySizeBytes", group="Stats", file="src/creator/directory_pack/schema/property.rs", fn="from", after=r"From<PropertySize<T>> for ByteSize",
+         cfg=dict(params=[("p", "SrcSize")], ret="Nat", patterns={"PropertySize::Fixed": "SrcSize.fixed", "PropertySize::Auto": "SrcSize.auto"},
+                  funcs={"needed_bytes": "((Generated.neededBytes (Int.toNat {0})).getD 0)"})),
 ]
 
 
@@ -437,8 +455,8 @@ def apply_enums(t):
     return "\n".join(decls)
 
 
-GROUP_IMPORTS = {"Lookup": [], "Fs": ["JubakoModel.Model.BasicCreatorFs"], "Sync": ["JubakoModel.Model.SyncVec"], "Pipe": ["JubakoModel.Model.Pipeline"], "Proto": ["JubakoModel.Model.FileCursor"], "Search": ["JubakoModel.Generated.FuncsBytes"], "Content": ["JubakoModel.Generated.FuncsBytes"], "Dir": ["JubakoModel.Generated.FuncsBytes", "JubakoModel.Model.Bytes"]}
-GROUP_ORDER = ["Bytes", "Content", "Dir", "Order", "Search", "View", "Check", "Proto", "Pipe", "Sync", "Fs", "Lookup"]
+GROUP_IMPORTS = {"Stats": ["JubakoModel.Generated.FuncsBytes"], "Lookup": [], "Fs": ["JubakoModel.Model.BasicCreatorFs"], "Sync": ["JubakoModel.Model.SyncVec"], "Pipe": ["JubakoModel.Model.Pipeline"], "Proto": ["JubakoModel.Model.FileCursor"], "Search": ["JubakoModel.Generated.FuncsBytes"], "Content": ["JubakoModel.Generated.FuncsBytes"], "Dir": ["JubakoModel.Generated.FuncsBytes", "JubakoModel.Model.Bytes"]}
+GROUP_ORDER = ["Bytes", "Content", "Dir", "Order", "Search", "View", "Check", "Proto", "Pipe", "Sync", "Fs", "Lookup", "Stats"]
 
 
 def main():
